@@ -112,3 +112,4 @@ Print Assumptions C13_verify_no_panic.
 Print Assumptions C13_deserialise_no_panic.
 Print Assumptions C13_kernels_no_panic_partial.
 Print Assumptions C13_mont_no_panic_partial.
+Check F204.Proofs.KernelAgree.kernels_agree.
